@@ -1,4 +1,6 @@
 import EV.Driver.Util
+import EV.Model.Genesis
+import EV.Model.Sha256K
 namespace EV.Driver.C02
 open EV EV.Driver EV.Codec
 
@@ -24,5 +26,85 @@ def shaOp : Handler
   | _, [h] => withHex h fun bs => s!"ok {Hex.enc (Sha256.sha256 bs)} {Hex.enc (Sha256.sha256d bs)}"
   | _, _ => "bad-op"
 
-def ops : List (String × Handler) := [("txid", txidOp), ("blockhash", blockhashOp), ("sha", shaOp)]
+/-! ### genesis blocks and chain hashes (EV.Model.Genesis) -/
+
+/-- the model's hashes instantiated with the executable SHA-256 -/
+def ghashes : Genesis.GHashes := { hashes with sha256 := Sha256.sha256 }
+
+def txidsStr (b : Block) : String := ",".intercalate (b.txdata.map fun t => Hex.enc (t.txid hashes))
+
+/-- `genesis <network_id> <fedpeg> <signblock> <coins>`: serialized `genesis_block(&NetworkParams::new(..))`,
+    its `block_hash()`, `ChainHash::for_params`, the txids of its transactions, the commitment -/
+def genesisOp : Handler
+  | _, [nid, fed, sb, coins] =>
+    match Hex.decode nid, Hex.decode fed, Hex.decode sb, coins.toNat? with
+    | some nid, some fed, some sb, some coins =>
+      let p := Genesis.NetworkParams.new nid fed sb coins
+      match Genesis.genesisBlock ghashes p, Genesis.chainHash ghashes p with
+      | some b, some ch =>
+        s!"ok {Hex.enc b.enc} {Hex.enc (b.header.blockHash hashes)} {Hex.enc ch} {txidsStr b} {Hex.enc (Genesis.commit Sha256.sha256 p)}"
+      | _, _ => "panic"
+    | _, _, _, _ => "bad-op"
+  | _, _ => "bad-op"
+
+/-- `gcommit <network_id> <fedpeg> <signblock>`: `commit_to_custom_network_parameters` -/
+def gcommitOp : Handler
+  | _, [nid, fed, sb] =>
+    match Hex.decode nid, Hex.decode fed, Hex.decode sb with
+    | some nid, some fed, some sb => okHex (Genesis.commit Sha256.sha256 (Genesis.NetworkParams.new nid fed sb 0))
+    | _, _, _ => "bad-op"
+  | _, _ => "bad-op"
+
+def paramsStr (p : Genesis.NetworkParams) : String :=
+  s!"{Hex.enc p.networkId} {Hex.enc p.fedpegScript} {Hex.enc p.signBlockScript} {p.initialFreeCoins}"
+
+/-- `gbuiltin liquidv1|liquidtestnet`: the built-in parameter set (as extracted from the source), the
+    chain hash the model computes for it and the `ChainHash` constant (as extracted) -/
+def gbuiltinOp : Handler
+  | _, [name] =>
+    let go (p : Genesis.NetworkParams) (c : Bytes) : String :=
+      match Genesis.chainHash ghashes p with
+      | some ch => s!"ok {paramsStr p} {Hex.enc ch} {Hex.enc c}"
+      | none => "panic"
+    if name == "liquidv1" then go Genesis.NetworkParams.liquidv1 Genesis.chainHashLiquidv1
+    else if name == "liquidtestnet" then go Genesis.NetworkParams.liquidtestnet Genesis.chainHashLiquidtestnet
+    else "bad-op"
+  | _, _ => "bad-op"
+
+/-- an optional byte string on the op line: `none`, or hex (`-` = empty) -/
+def optBytes (s : String) : Option (Option Bytes) :=
+  if s == "none" then some none else (Hex.decode s).map some
+
+/-- `gcustom <network_id> <fedpeg|none> <signblock|none> <coins|none>`: `NetworkParams::custom_network` -/
+def gcustomOp : Handler
+  | _, [nid, fed, sb, coins] =>
+    let coins? : Option (Option Nat) := if coins == "none" then some none else coins.toNat?.map some
+    match Hex.decode nid, optBytes fed, optBytes sb, coins? with
+    | some nid, some fed, some sb, some coins => s!"ok {paramsStr (Genesis.NetworkParams.customNetwork nid fed sb coins)}"
+    | _, _, _, _ => "bad-op"
+  | _, _ => "bad-op"
+
+/-- `btcmerkle <n> <32n bytes>`: `bitcoin::merkle_tree::calculate_root` of `n` hashes (`none` = Rust `None`) -/
+def btcmerkleOp : Handler
+  | _, [n, h] =>
+    match n.toNat?, Hex.decode h with
+    | some n, some bs =>
+      if bs.length ≠ 32 * n then "bad-op"
+      else match Genesis.btcMerkleRoot Sha256.sha256d (chunk32 n bs) with
+        | some r => okHex r
+        | none => "none"
+    | _, _ => "bad-op"
+  | _, _ => "bad-op"
+
+/-- `shak <hex>`: the kernel-evaluable SHA-256 (EV.Model.Sha256K): digest, double digest, and for 64-byte
+    inputs the midstate of the one block (`-` otherwise) -/
+def shakOp : Handler
+  | _, [h] => withHex h fun bs =>
+    let m := if bs.length = 64 then Hex.enc (Sha256K.midstate (bs.take 32) (bs.drop 32)) else "-"
+    s!"ok {Hex.enc (Sha256K.sha256 bs)} {Hex.enc (Sha256K.sha256d bs)} {m}"
+  | _, _ => "bad-op"
+
+def ops : List (String × Handler) := [("txid", txidOp), ("blockhash", blockhashOp), ("sha", shaOp),
+  ("genesis", genesisOp), ("gcommit", gcommitOp), ("gbuiltin", gbuiltinOp), ("gcustom", gcustomOp),
+  ("btcmerkle", btcmerkleOp), ("shak", shakOp)]
 end EV.Driver.C02
